@@ -219,7 +219,27 @@ def keypair_cases(rng, n):
         sk_s = [rng.randrange(256) for _ in range(32)]
         sk_x = [rng.randrange(256) for _ in range(32)]
         right = (i // 2) % 2 == 0
-        pk_for_client = x25519_pub(sk_s if right else sk_x)
+        true_pk = x25519_pub(sk_s)
+        if right:
+            pk_for_client = true_pk
+        else:
+            # a key that is not the server's: an unrelated key pair's, or the true key with one bit flipped at either end or
+            # in the middle, with two different bytes swapped (same XOR / same byte sum), reversed, rotated by one byte
+            variant = (i // 4) % 7
+            pk = list(true_pk)
+            if variant == 0:
+                pk = x25519_pub(sk_x)
+            elif variant in (1, 2, 3):
+                pos = {1: 0, 2: 15, 3: 31}[variant]
+                pk[pos] ^= 1 << rng.randrange(8)
+            elif variant == 4:
+                a_, b_ = 0, next(j for j in range(1, 32) if pk[j] != pk[0])
+                pk[a_], pk[b_] = pk[b_], pk[a_]
+            elif variant == 5:
+                pk = pk[::-1] if pk[::-1] != pk else x25519_pub(sk_x)
+            else:
+                pk = pk[1:] + pk[:1] if pk[1:] + pk[:1] != pk else x25519_pub(sk_x)
+            pk_for_client = pk
         a = E.mk_cfg(server=False, stype="PUSH", curve=(mech == "curve"), noise=(mech == "noise"))
         b = E.mk_cfg(server=True, stype="PULL", curve=(mech == "curve"), noise=(mech == "noise"))
         a[mech + "_sk"], a[mech + "_pk"] = sk_c, pk_for_client
@@ -275,7 +295,7 @@ def main(argv):
                    theorems_note="C06_no_bypass (session level)", strip=c04.stack_strip, tag="stack")
     # real-crypto gate: matching / non-matching key pairs between two real engines (property oracle; the mechanisms are
     # opaque in the model: this is what stands behind its premise mech_sound)
-    kcs = keypair_cases(rng, 24 if tier == "quick" else 200)
+    kcs = keypair_cases(rng, 56 if tier == "quick" else 280)
     kobs, klog = C.run_harness("pair", [{k: c[k] for k in ("a", "b", "sched")} for c in kcs], PROP, tag="keys")
     if kobs is None or len(kobs) != len(kcs):
         res.obligation(False, "key-pair scenarios could not run: " + str(klog)[-500:])
